@@ -391,7 +391,7 @@ impl Check for C02Check {
         CheckInfo {
             id: "C02",
             level: "exploration",
-            rule: "case = one generated program (storage idioms 60%, stack-aware 20%, control-flow 10%, mutated corpus 10%) + knobs (default 70%, swarm 30%), analysed under a reference schedule and S further schedules (natural hash keys, reverse-all, fold sorted by kind asc/desc, shuffle-all, seeded random site subsets), rotating through the three ways of calling the pipeline (analyze(), the staged extractor calls, VM + type-checker phases one by one), every fifth run with a slot-hash table of its own built by the library instead of the table shared by the worker's analyses; one case in three is also run under three schedules with a stop request (sticky, or visible to one poll only) at the same poll index at interval 1, half of the time a poll made by the unifier, and where all three runs saw the request their results must be equal; evaluations = simulated runs; a run is non-trivial when the unifier folded at least one class holding >= 2 pieces of evidence; distinct = distinct (program, fold-order digest) pairs, counted with a hash set",
+            rule: "case = one generated program (storage idioms 56%, slots typed in terms of each other in a ring 4%, stack-aware 20%, control-flow 10%, mutated corpus 10%) + knobs (default 70%, swarm 30%), analysed under a reference schedule and S further schedules (natural hash keys, reverse-all, fold sorted by kind asc/desc, shuffle-all, seeded random site subsets), rotating through the three ways of calling the pipeline (analyze(), the staged extractor calls, VM + type-checker phases one by one), every fifth run with a slot-hash table of its own built by the library instead of the table shared by the worker's analyses; one case in three is also run under three schedules with a stop request (sticky, or visible to one poll only) at the same poll index at interval 1, half of the time a poll made by the unifier, and where all three runs saw the request their results must be equal; evaluations = simulated runs; a run is non-trivial when the unifier folded at least one class holding >= 2 pieces of evidence; distinct = distinct (program, fold-order digest) pairs, counted with a hash set",
             assumptions: &[
                 "all order-sensitive iteration in the library goes through std HashMap/HashSet, which the cfg hook replaces (BiMap in the slot-hash table is only used for keyed look-ups)",
                 "equality of results is the library's own StorageLayout PartialEq (conflict payloads ignored) plus the success/failure class",
